@@ -25,7 +25,7 @@ def run(c):
         full = "{" + ",".join(str(i) for i in range(256)) + "}"
         cfg = "SPECIFICATION Spec\nCONSTANTS B1 = %s\n T = %s\nINVARIANTS DispatchLaw Out\nCHECK_DEADLOCK FALSE\n" % (full, full)
         open(os.path.join(sd, "MC_C05.cfg"), "w").write(cfg)
-    res = c.stage_a(sd, "MC_C05", "MC_C05", timeout=2400)
+    res = c.stage_a(sd, "MC_C05", "MC_C05", timeout=2400, coverage=not thorough)
     pts = [json.loads(json.loads(ln)) for ln in res.printed if ln.startswith('"{')]
     if len(pts) != res.distinct:
         raise Infra("dispatch cube incomplete: %d printed vs %d states" % (len(pts), res.distinct))
